@@ -4,8 +4,15 @@
  *  VF_MODE=2  timeout: program of 120 NOPs, symbolic clock reading and timeout: the VM polls the clock every 100
  *             instructions; clock > timeout > 0 at the poll => ERROR_SCAN_TIMEOUT (so a scan overruns its deadline by
  *             at most 100 instructions), timeout == 0 => never.
+ *  VF_MODE=3  the same with module function calls in the program: 88 NOPs, then VF_SLOTS x (OP_OBJ_LOAD f; OP_PUSH arg;
+ *             OP_CALL "i"; OP_POP) around the 100th instruction, every arg symbolic (an undefined argument skips the
+ *             call), so the calls made are any subset.
+ *             Whatever the mix, a program of >= 100 instructions run past its deadline ends with ERROR_SCAN_TIMEOUT.
+ *             Environment: yr_hash_table_lookup -> the function object, yr_object_copy/destroy -> counters.
  */
+#ifndef VF_CODE_MAX
 #define VF_CODE_MAX 160
+#endif
 #include "common/exec_env.h"
 
 static YR_RULE rules_table[1];
@@ -37,10 +44,64 @@ static void setup(void)
   ctx.required_eval = required_eval;
 }
 
+#if VF_MODE == 3
+#ifndef VF_SLOTS
+#define VF_SLOTS 4
+#endif
+static YR_OBJECT_FUNCTION vf_func;
+static YR_OBJECT vf_ret, vf_ret_copy;
+static int vf_fn_calls, vf_copies, vf_destroys;
+static int vf_fn(YR_VALUE* args, YR_SCAN_CONTEXT* context, YR_OBJECT_FUNCTION* function_obj) { vf_fn_calls++; return ERROR_SUCCESS; }
+void* yr_hash_table_lookup(YR_HASH_TABLE* table, const char* key, const char* ns) { return &vf_func; }
+int yr_object_copy(YR_OBJECT* object, YR_OBJECT** object_copy) { vf_copies++; *object_copy = &vf_ret_copy; return ERROR_SUCCESS; }
+void yr_object_destroy(YR_OBJECT* object) { vf_destroys++; }
+static void emit_ptr(const void* p) { *(const void**) (vf_code + vf_cp) = p; vf_cp += 8; }
+#endif
+
 int main(void)
 {
   setup();
-#if VF_MODE == 1
+#if VF_MODE == 3
+  vf_func.type = OBJECT_TYPE_FUNCTION;
+  vf_func.canary = ctx.canary = 7;
+  vf_func.return_obj = &vf_ret;
+  vf_func.prototypes[0].arguments_fmt = "i";
+  vf_func.prototypes[0].code = vf_fn;
+  vf_func.prototypes[1].arguments_fmt = NULL;
+  static char strtab[4] = {'f', 0, 'i', 0}; /* identifiers and argument formats live in the rules arena (YR_PARANOID_EXEC checks it) */
+  rules_arena.num_buffers = 2;
+  rules_arena.buffers[1].data = (uint8_t*) strtab;
+  rules_arena.buffers[1].size = rules_arena.buffers[1].used = sizeof(strtab);
+  vf_cp = 0;
+  emit_rule_begin(0);
+  int ncalls = 0;
+  for (int i = 0; i < 88; i++) emit8(OP_NOP);
+  for (int i = 0; i < VF_SLOTS; i++)
+  {
+    uint64_t arg = vf_bool() ? (uint64_t) YR_UNDEFINED : 1;
+    if (arg == 1) ncalls++;
+    emit8(OP_OBJ_LOAD); emit_ptr(strtab);
+    emit_push(arg);
+    emit8(OP_CALL); emit_ptr(strtab + 2);
+    emit8(OP_POP);
+  }
+  emit_push(1);
+  emit_rule_end(0);
+  emit8(OP_HALT);
+  ctx.timeout = vf_u64();
+  vf_clock_now = vf_u64();
+  int r = yr_execute_code(&ctx);
+  if (ctx.timeout > 0 && vf_clock_now > ctx.timeout)
+  {
+    VF_ASSERT(r == ERROR_SCAN_TIMEOUT && (rule_matches[0] & 1) == 0, "past the deadline the VM stops with ERROR_SCAN_TIMEOUT within 100 instructions, whatever the instruction mix");
+  }
+  else
+  {
+    VF_ASSERT(r == ERROR_SUCCESS && (rule_matches[0] & 1) == 1, "no timeout configured or deadline not reached: evaluation completes");
+    VF_ASSERT(vf_fn_calls == ncalls, "every call with defined arguments is made");
+  }
+  VF_ASSERT(vf_copies == vf_fn_calls && vf_destroys == vf_copies, "every function result is copied once and released once at exit");
+#elif VF_MODE == 1
   vf_stack_size = vf_range(1, 6);
   vf_cp = 0;
   emit_rule_begin(0);
